@@ -89,13 +89,27 @@ def main(argv=None):
             results.append(_job(prop, modname, jn, fn, kw, a.tier, seed))
     else:
         ctx = mp.get_context("fork")
-        with cf.ProcessPoolExecutor(max_workers=min(a.jobs, len(jobs)), mp_context=ctx) as ex:
-            futs = {ex.submit(_job, prop, modname, jn, fn, kw, a.tier, seed): jn for jn, fn, kw in jobs}
-            for f in cf.as_completed(futs):
+        deadline = float(os.environ.get("VERIF_DEADLINE_S", "1500" if a.tier == "quick" else "3300"))
+        ex = cf.ProcessPoolExecutor(max_workers=min(a.jobs, len(jobs)), mp_context=ctx)
+        futs = {ex.submit(_job, prop, modname, jn, fn, kw, a.tier, seed): jn for jn, fn, kw in jobs}
+        empty = dict(paths=0, queries=0, solver_time=0, axiom_counts={}, validated=0, functions=[], stubs=[], assumptions=[], hashes={}, wall=0)
+        try:
+            for f in cf.as_completed(futs, timeout=deadline):
                 try:
                     results.append(f.result())
                 except BaseException as e:
-                    results.append(dict(job=futs[f], records=[dict(obligation="%s/%s/job" % (prop, futs[f]), verdict="error", detail="worker died: %r" % (e,))], paths=0, queries=0, solver_time=0, axiom_counts={}, validated=0, functions=[], stubs=[], assumptions=[], hashes={}, wall=0))
+                    results.append(dict(empty, job=futs[f], records=[dict(obligation="%s/%s/job" % (prop, futs[f]), verdict="error", detail="worker died: %r" % (e,))]))
+        except cf.TimeoutError:
+            # a job that does not finish (e.g. the analysed code loops forever) is inconclusive
+            for f, jn in futs.items():
+                if not f.done():
+                    results.append(dict(empty, job=jn, records=[dict(obligation="%s/%s/job" % (prop, jn), verdict="unknown", detail="job did not finish within %.0f s (non-termination of the analysed code or of the solver)" % deadline)]))
+            for pr in list(getattr(ex, "_processes", {}).values()):
+                try:
+                    pr.kill()
+                except Exception:
+                    pass
+        ex.shutdown(wait=False, cancel_futures=True)
     results.sort(key=lambda r: r["job"])
     wall = time.time() - t0
     return finish(m, prop, a.tier, seed, results, wall, a.v)
